@@ -119,14 +119,16 @@ struct XCompare : Engine {
         if (c.kind == 0) {
             size_t i = (size_t)c.iv[1], j = (size_t)c.iv[2]; bool cs = c.iv[3] != 0; if (i >= T.size() || j >= T.size()) return;
             int vb2 = (int)((i + j) % 3);
-            cJSON_bool ab = LIB(cJSON_Compare(real[0][i], real[vb2][j], cs)), ba = LIB(cJSON_Compare(real[vb2][j], real[0][i], cs)); ctr().calls += 2; ctr().extra[4] += 2; ctr().extra[0]++;
-            if (vb) printf("  Compare(%s , %s , cs=%d) = %d / reversed %d (variant %d)\n", rv_text(T[i]).c_str(), rv_text(T[j]).c_str(), (int)cs, ab, ba, vb2);
+            static const int TRUTHY[4] = { 1, 2, -1, 256 };   // cJSON_bool is an int: every non-zero value requests the case-sensitive comparison; the reversed call cycles through them
+            const int csv = cs ? TRUTHY[(i * 7 + j) & 3] : 0;
+            cJSON_bool ab = LIB(cJSON_Compare(real[0][i], real[vb2][j], cs)), ba = LIB(cJSON_Compare(real[vb2][j], real[0][i], csv)); ctr().calls += 2; ctr().extra[4] += 2; ctr().extra[0]++;
+            if (vb) printf("  Compare(%s , %s , cs=%d) = %d / reversed (case_sensitive=%d) %d (variant %d)\n", rv_text(T[i]).c_str(), rv_text(T[j]).c_str(), (int)cs, ab, csv, ba, vb2);
             Tri m = ANY; if (distinct_keys(T[i], cs) && distinct_keys(T[j], cs)) m = ref_eq(T[i], T[j], cs);
             std::string d = rv_text(T[i]) + " vs " + rv_text(T[j]) + (cs ? " (case-sensitive)" : " (case-insensitive)") + ", second tree built as ownership variant " + std::to_string(vb2);
             if (m == ANY) { ctr().extra[3]++; return; }
             ctr().compared++; if (m == YES) { ctr().extra[1]++; ctr().nontrivial++; } else ctr().extra[2]++;
             if ((ab != 0) != (m == YES)) V(m == YES ? "equal-values-compare-unequal" : "different-values-compare-equal", "cJSON_Compare returned " + std::to_string(ab) + " for " + d);
-            else if ((ab != 0) != (ba != 0)) V("not-symmetric", "Compare(a,b)=" + std::to_string(ab) + " but Compare(b,a)=" + std::to_string(ba) + " for " + d);
+            else if ((ab != 0) != (ba != 0)) V("not-symmetric", "Compare(a,b)=" + std::to_string(ab) + " but Compare(b,a)=" + std::to_string(ba) + " (reversed call made with case_sensitive=" + std::to_string(csv) + ") for " + d);
             note_outcome((uint64_t)m | (uint64_t)(ab != 0) << 2 | (uint64_t)T[i].k << 3 | (uint64_t)T[j].k << 7);
         } else if (c.kind == 1) {
             size_t i = (size_t)c.iv[1]; if (i >= T.size()) return; ctr().extra[5]++;
